@@ -149,19 +149,102 @@ Qed.
 Definition req_of (sch : schema) (reqs : list subreq) (r : jmap) : option subreq :=
   find (fun q => val_is (dedupe (enc_rec sch r)) (sr_key q) (sr_val q)) reqs.
 
-(* multi-record parameters: every current record has a counterpart in the stored
-   result, selected by its requirement's key value, whose protected fields are
-   intact; the number of records is unchanged *)
-Theorem multi_sound_counterpart sch vf rs ac inc st' :
+Lemma to_maps_nth l : forall ms j im, to_maps l = Some ms -> nth_error ms j = Some im ->
+  exists x, nth_error l j = Some x /\ to_map x = Some im.
+Proof.
+  induction l as [|x t IH]; cbn; intros ms j im H Hn.
+  - inversion H; subst. destruct j; discriminate.
+  - destruct (to_map x) as [m|] eqn:Em; [|discriminate].
+    destruct (to_maps t) as [m'|] eqn:Et; [|discriminate]. inversion H; subst ms.
+    destruct j; cbn in Hn.
+    + inversion Hn; subst. exists x. split; [reflexivity|exact Em].
+    + destruct (IH m' j im eq_refl Hn) as (y & Hy & Hm). exists y. split; assumption.
+Qed.
+
+Lemma find_unmatched_spec k s incs : forall matched i j im,
+  find_unmatched k s incs matched i = Some (j, im) ->
+  exists j0, j = (i + j0)%nat /\ nth_error incs j0 = Some im /\ nth_error matched j0 = Some false /\
+             val_is im k s = true.
+Proof.
+  induction incs as [|x t IH]; intros matched i j im H; cbn in H; [discriminate|].
+  destruct matched as [|m mr]; [discriminate|].
+  destruct (negb m && val_is x k s) eqn:E.
+  - inversion H; subst. apply Bool.andb_true_iff in E. destruct E as [Em Ev].
+    apply Bool.negb_true_iff in Em. subst m. exists 0%nat. repeat split; auto; lia.
+  - destruct (IH mr (S i) j im H) as (j0 & -> & H1 & H2 & H3). exists (S j0). repeat split; auto; lia.
+Qed.
+
+Lemma nth_error_set_nth_same {A} (l : list A) : forall i v x,
+  nth_error l i = Some x -> nth_error (set_nth i v l) i = Some v.
+Proof. induction l as [|a r IH]; intros [|i] v x H; cbn in *; try discriminate; [reflexivity|eauto]. Qed.
+
+Lemma nth_error_set_nth_other {A} (l : list A) : forall i j v,
+  i <> j -> nth_error (set_nth i v l) j = nth_error l j.
+Proof.
+  induction l as [|a r IH]; intros [|i] [|j] v H; cbn; try reflexivity; try congruence.
+  apply IH. congruence.
+Qed.
+
+Definition paired (reqs : list subreq) (incs : list jmap) (c : jmap) (j : nat) : Prop :=
+  exists q im, find (fun r => val_is c (sr_key r) (sr_val r)) reqs = Some q /\
+    nth_error incs j = Some im /\ val_is im (sr_key q) (sr_val q) = true /\
+    validate_changes c im (sr_attrs q) = true.
+
+(* the loop pairs the current records, in order, with pairwise distinct incoming records *)
+Lemma amf_spec reqs incs : forall curs matched,
+  allows_multi_from reqs curs incs matched = true ->
+  exists js, NoDup js /\ (forall j, In j js -> nth_error matched j = Some false) /\
+             Forall2 (paired reqs incs) curs js.
+Proof.
+  induction curs as [|c rest IH]; cbn; intros matched H.
+  - exists []. repeat split; [constructor|intros j []|constructor].
+  - destruct (find (fun r => val_is c (sr_key r) (sr_val r)) reqs) as [q|] eqn:Eq; [|discriminate].
+    destruct (find_unmatched (sr_key q) (sr_val q) incs matched 0) as [[j im]|] eqn:Ef; [|discriminate].
+    apply Bool.andb_true_iff in H. destruct H as [Hv Hrest].
+    destruct (find_unmatched_spec _ _ _ _ _ _ _ Ef) as (j0 & -> & Hn & Hm & Hval). cbn in *.
+    destruct (IH _ Hrest) as (js & Hnd & Hfree & Hp).
+    exists (j0 :: js). split; [|split].
+    + constructor; [|exact Hnd]. intros Hin. specialize (Hfree _ Hin).
+      rewrite (nth_error_set_nth_same matched j0 true false Hm) in Hfree. discriminate.
+    + intros j [<-|Hin]; [exact Hm|].
+      pose proof (Hfree _ Hin) as Hf. destruct (Nat.eq_dec j0 j) as [->|Hne].
+      * rewrite (nth_error_set_nth_same matched j true false Hm) in Hf. discriminate.
+      * now rewrite nth_error_set_nth_other in Hf.
+    + constructor; [|exact Hp]. exists q, im. auto.
+Qed.
+
+Lemma Forall2_map_l {A B C} (g : A -> B) (P : B -> C -> Prop) l : forall js,
+  Forall2 P (map g l) js -> Forall2 (fun a j => P (g a) j) l js.
+Proof.
+  induction l as [|a r IH]; cbn; intros js H; inversion H; subst; constructor; auto.
+Qed.
+
+Lemma Forall2_impl_in {A B} (P Q : A -> B -> Prop) l1 l2 :
+  Forall2 P l1 l2 -> (forall a b, In a l1 -> P a b -> Q a b) -> Forall2 Q l1 l2.
+Proof.
+  induction 1 as [|a b r1 r2 Hab Hr IH]; intros Himp; constructor.
+  - apply Himp; [now left|exact Hab].
+  - apply IH. intros x y Hx. apply Himp. now right.
+Qed.
+
+(* the stored record at position j is the image of the current record r *)
+Definition image_of (sch : schema) (reqs : list subreq) (rs' : list jmap) (r : jmap) (j : nat) : Prop :=
+  exists q r', req_of sch reqs r = Some q /\ nth_error rs' j = Some r' /\
+    val_is (dedupe (enc_rec sch r)) (sr_key q) (sr_val q) = true /\
+    forall f, In f sch -> str_in (f_name f) (sr_attrs q) = false ->
+      bget (f_name f) r' (zero_k (f_kind f)) = bget (f_name f) r (zero_k (f_kind f)).
+
+(* multi-record parameters, full statement: the stored array has as many records
+   as the current one, and there is an injective assignment js of stored positions
+   to the current records (in order) such that the stored record at js[n] carries
+   the n-th current record's requirement key value and agrees with it on every
+   field outside that requirement's allow-list *)
+Theorem multi_sound_full sch vf rs ac inc st' :
   schema_ok sch = true -> Forall (fun r => wt_rec sch r = true) rs -> rs <> [] -> has_rules ac ->
   allows_change ac (RVal (enc_slice sch rs)) (Some inc) = Some true ->
   apply_multi sch vf (enc_slice sch rs) inc = AOk st' ->
-  exists rs', st' = enc_slice sch rs' /\ vf rs' = true /\ List.length rs' = List.length rs /\
-    forall r, In r rs ->
-      exists q r', req_of sch (ac_multi ac) r = Some q /\ In r' rs' /\
-        val_is (dedupe (enc_rec sch r)) (sr_key q) (sr_val q) = true /\
-        forall f, In f sch -> str_in (f_name f) (sr_attrs q) = false ->
-          bget (f_name f) r' (zero_k (f_kind f)) = bget (f_name f) r (zero_k (f_kind f)).
+  exists rs' js, st' = enc_slice sch rs' /\ vf rs' = true /\ List.length rs' = List.length rs /\
+    NoDup js /\ Forall2 (image_of sch (ac_multi ac) rs') rs js.
 Proof.
   intros Hok Hwt Hne Hrules Hallow Happ.
   unfold allows_change in Hallow. unfold has_rules in Hrules. rewrite Hrules in Hallow.
@@ -176,34 +259,64 @@ Proof.
   destruct (dec_slice sch (JArr (map (enc_struct sch) rs))); [|discriminate].
   destruct (dec_slice sch inc) as [rs'|] eqn:Ed; [|discriminate].
   destruct (vf rs') eqn:Ev; [|discriminate]. inversion Happ; subst st'.
-  exists rs'. split; [reflexivity|]. split; [exact Ev|].
+  destruct (amf_spec _ _ _ _ Hall) as (js & Hnd & _ & Hp).
+  exists rs', js. split; [reflexivity|]. split; [exact Ev|].
   destruct inc as [| | | |li|]; cbn in Ei, Ed; try discriminate.
-  { (* null: zero incoming records, but there is at least one current record *)
-    inversion Ei; subst incs. destruct rs; [congruence|discriminate]. }
+  { inversion Ei; subst incs. destruct rs; [congruence|discriminate]. }
   split.
   { rewrite (dec_structs_length _ _ _ Ed), <- (to_maps_length _ _ Ei). now symmetry. }
-  intros r Hr. rewrite forallb_forall in Hall.
-  specialize (Hall (dedupe (enc_rec sch r))).
-  assert (Hc : In (dedupe (enc_rec sch r)) (map (fun r0 => dedupe (enc_rec sch r0)) rs)).
-  { apply in_map_iff. eauto. }
-  specialize (Hall Hc). fold (req_of sch (ac_multi ac) r) in Hall.
-  destruct (req_of sch (ac_multi ac) r) as [q|] eqn:Eq; [|discriminate].
-  destruct (find (fun i => val_is i (sr_key q) (sr_val q)) incs) as [im|] eqn:Ef; [|discriminate].
-  destruct (to_maps_find _ _ _ _ Ei Ef) as (j & x & Hj & Hx).
+  split; [exact Hnd|].
+  apply Forall2_map_l in Hp.
+  eapply Forall2_impl_in; [exact Hp|].
+  intros r j Hr (q & im & Hq & Hn & Hvi & Hvc).
+  destruct (to_maps_nth _ _ _ _ Ei Hn) as (x & Hj & Hx).
   destruct (dec_structs_nth _ _ _ _ _ Ed Hj) as (r' & Hr' & Hdx).
-  exists q, r'. split; [reflexivity|]. split; [eapply nth_error_In; eauto|].
-  assert (Hq : val_is (dedupe (enc_rec sch r)) (sr_key q) (sr_val q) = true).
-  { unfold req_of in Eq. apply find_some in Eq. tauto. }
-  split; [exact Hq|].
+  exists q, r'. split; [exact Hq|]. split; [exact Hr'|].
+  assert (Hqv : val_is (dedupe (enc_rec sch r)) (sr_key q) (sr_val q) = true).
+  { apply find_some in Hq. tauto. }
+  split; [exact Hqv|].
   intros f Hin Hprot.
   rewrite Forall_forall in Hwt. specialize (Hwt r Hr).
   destruct x; cbn in Hx, Hdx; try discriminate.
-  - (* a null record: its map is empty, the current record's is not *)
-    inversion Hx; subst im. unfold validate_changes in Hall.
-    apply Bool.andb_true_iff in Hall. destruct Hall as [Hl _]. apply Nat.eqb_eq in Hl.
-    unfold val_is in Hq. destruct (dedupe (enc_rec sch r)); [discriminate|discriminate].
+  - inversion Hx; subst im. unfold val_is in Hvi. discriminate.
   - inversion Hx; subst im.
     eapply rec_sound with (base := zero_rec sch); eauto.
+Qed.
+
+(* consequently every stored record is the image of exactly one current record *)
+Lemma Forall2_nth {A B} (P : A -> B -> Prop) l1 l2 : Forall2 P l1 l2 ->
+  forall n b, nth_error l2 n = Some b -> exists a, nth_error l1 n = Some a /\ P a b.
+Proof.
+  induction 1 as [|a b r1 r2 Hab Hr IH]; intros [|n] x Hn; cbn in *; try discriminate.
+  - inversion Hn; subst. eauto.
+  - eauto.
+Qed.
+
+Lemma Forall2_len {A B} (P : A -> B -> Prop) l1 l2 : Forall2 P l1 l2 -> List.length l1 = List.length l2.
+Proof. induction 1; cbn; congruence. Qed.
+
+Theorem multi_sound_onto sch reqs rs rs' js :
+  List.length rs' = List.length rs -> NoDup js -> Forall2 (image_of sch reqs rs') rs js ->
+  forall j, (j < List.length rs')%nat ->
+    exists n r, nth_error js n = Some j /\ nth_error rs n = Some r /\ image_of sch reqs rs' r j /\
+      forall m, nth_error js m = Some j -> m = n.
+Proof.
+  intros Hlen Hnd Hf j Hj.
+  assert (Hl : List.length js = List.length rs) by (symmetry; eapply Forall2_len; eauto).
+  assert (Hin : In j js).
+  { assert (Hincl : incl js (seq 0 (List.length rs'))).
+    { intros k Hk. apply In_nth_error in Hk. destruct Hk as (n & Hn).
+      destruct (Forall2_nth _ _ _ Hf n k Hn) as (a & _ & (q & r' & _ & Hr' & _)).
+      apply in_seq. split; [lia|]. cbn. apply nth_error_Some. congruence. }
+    assert (Hback : incl (seq 0 (List.length rs')) js).
+    { apply NoDup_length_incl; [exact Hnd|rewrite seq_length; lia|exact Hincl]. }
+    apply Hback. apply in_seq. lia. }
+  apply In_nth_error in Hin. destruct Hin as (n & Hn).
+  destruct (Forall2_nth _ _ _ Hf n j Hn) as (r & Hr & Him).
+  exists n, r. repeat split; auto.
+  intros m Hm. eapply NoDup_nth_error; eauto.
+  - apply nth_error_Some. congruence.
+  - congruence.
 Qed.
 
 (** * Part 2: the proposal life cycle *)
@@ -630,35 +743,3 @@ Proof.
   eapply (process_all_events sls s0 (props s) s0 s1 e1 E); auto.
   unfold same_frame; auto.
 Qed.
-
-(** ** the stored result, record by record (used to state "no record is replaced") *)
-
-Definition opt_json_eqb (a b : option json) : bool :=
-  match a, b with
-  | Some x, Some y => json_eqb x y
-  | None, None => true
-  | _, _ => false
-  end.
-
-(* the stored record object o' keeps every field of r outside q's allow-list *)
-Definition keeps_protected (sch : schema) (q : subreq) (r : jmap) (o' : jmap) : bool :=
-  forallb (fun f => str_in (f_name f) (sr_attrs q)
-                    || opt_json_eqb (oget (f_name f) o') (oget (f_name f) (enc_rec sch r))) sch.
-
-(* o' is the (possibly modified) image of some current record *)
-Definition accounted (sch : schema) (reqs : list subreq) (rs : list jmap) (o' : json) : bool :=
-  match o' with
-  | JObj l' =>
-      existsb (fun r => match req_of sch reqs r with
-                        | Some q => val_is l' (sr_key q) (sr_val q) && keeps_protected sch q r l'
-                        | None => false
-                        end) rs
-  | _ => false
-  end.
-
-Definition all_accounted (sch : schema) (reqs : list subreq) (rs : list jmap) (st' : json) : bool :=
-  match st' with
-  | JArr l => forallb (accounted sch reqs rs) l
-  | JNull => true
-  | _ => false
-  end.
